@@ -6,8 +6,19 @@ class WrapPlan:
     summaries = []
     checker_cmd = ""
 
-    def __init__(self, crate, features):
-        self.crate, self.features = crate, features
+    def __init__(self, crate, features, only=None, exclude=None):
+        self.crate, self.features, self.only, self.exclude = crate, features, only, exclude
+
+    def specs(self):
+        import re
+        out = []
+        for sp in self.mod.SPECS[self.crate]:
+            if self.only and not re.search(self.only, sp.name):
+                continue
+            if self.exclude and re.search(self.exclude, sp.name):
+                continue
+            out.append(sp)
+        return out
 
     def z3_version(self):
         import z3
@@ -23,13 +34,13 @@ class WrapPlan:
         WrapPlan.summaries = c08_wrappers.SUMMARY_TEXT
 
     def checks(self, tier):
-        return [("wrap." + sp.name, self.mod.make_check(self.W, sp)) for sp in self.mod.SPECS[self.crate]]
+        return [("wrap." + sp.name, self.mod.make_check(self.W, sp)) for sp in self.specs()]
 
     def encoded(self):
         return sorted(self.W.encoded)
 
     def bounds(self, tier):
-        return {"wrappers": len(self.mod.SPECS[self.crate]), "polls_per_wrapper": "<= 3 (the submission answers Pending up to twice)",
+        return {"wrappers": len(self.specs()), "polls_per_wrapper": "<= 3 (the submission answers Pending up to twice)",
                 "values": "uninterpreted terms (one z3 sort), congruence decided by z3"}
 
     def validate(self, tier):
